@@ -1010,6 +1010,7 @@ type Result struct {
 	Outs    []int // IR ids, -1-k for a constant output (materialised as const op)
 	OutBits []int
 	Err     string
+	Wrap    string // Go source of the T0 wrapper closure body
 }
 
 func findFunc(pkg *ssa.Package, name string) *ssa.Function {
@@ -1123,6 +1124,7 @@ func translate(prog *ssa.Program, pkg *ssa.Package, globals map[*ssa.Global]*Cel
 			fail("unknown arg spec %q", spec)
 		}
 	}
+	res.Wrap = genWrap(fn, t)
 	ret := in.call(fn, args, nil)
 	var outVals []Value
 	var outTypes []types.Type
@@ -1172,6 +1174,78 @@ func translate(prog *ssa.Program, pkg *ssa.Package, globals map[*ssa.Global]*Cel
 	return
 }
 
+// genWrap renders a Go closure that calls the real function on a flat vector of input integers and returns the flat
+// vector of outputs, in exactly the variable order used by the IR program (stream T0 compares the two).
+func genWrap(fn *ssa.Function, t Target) string {
+	var sb strings.Builder
+	q := func(ty types.Type) string {
+		return types.TypeString(ty, func(p *types.Package) string {
+			if p == fn.Pkg.Pkg {
+				return ""
+			}
+			return p.Name()
+		})
+	}
+	fmt.Fprintf(&sb, "\tverifT0[%q] = func(in []uint64) []uint64 {\n\t\tp := 0\n\t\tvar out []uint64\n\t\t_ = p\n", t.Group+"."+t.Name)
+	var callArgs []string
+	var post []string
+	for i, spec := range t.Args {
+		pt := fn.Params[i].Type()
+		kind, param := spec, ""
+		if j := strings.Index(spec, ":"); j >= 0 {
+			kind, param = spec[:j], spec[j+1:]
+		}
+		v := fmt.Sprintf("a%d", i)
+		switch kind {
+		case "in", "out", "inout", "zero":
+			el := pt.Underlying().(*types.Pointer).Elem()
+			fmt.Fprintf(&sb, "\t\tvar %s %s\n", v, q(el))
+			if kind == "in" || kind == "inout" {
+				fmt.Fprintf(&sb, "\t\tp += verifFill(&%s, in[p:])\n", v)
+			}
+			if kind == "out" || kind == "inout" {
+				post = append(post, fmt.Sprintf("\t\tout = append(out, verifRead(&%s)...)\n", v))
+			}
+			callArgs = append(callArgs, "&"+v)
+		case "const":
+			callArgs = append(callArgs, fmt.Sprintf("%s(%s)", q(pt), param))
+		case "sym":
+			fmt.Fprintf(&sb, "\t\t%s := %s(in[p])\n\t\tp++\n", v, q(pt))
+			callArgs = append(callArgs, v)
+		case "inbytes":
+			fmt.Fprintf(&sb, "\t\t%s := make([]byte, %s)\n\t\tfor i := range %s {\n\t\t\t%s[i] = byte(in[p])\n\t\t\tp++\n\t\t}\n", v, param, v, v)
+			callArgs = append(callArgs, v)
+		case "outbytes":
+			fmt.Fprintf(&sb, "\t\t%s := make([]byte, %s)\n", v, param)
+			post = append(post, fmt.Sprintf("\t\tfor _, b := range %s {\n\t\t\tout = append(out, uint64(b))\n\t\t}\n", v))
+			callArgs = append(callArgs, v)
+		}
+	}
+	call := ""
+	if fn.Signature.Recv() != nil {
+		call = fmt.Sprintf("(%s).%s(%s)", callArgs[0], fn.Name(), strings.Join(callArgs[1:], ", "))
+	} else {
+		call = fmt.Sprintf("%s(%s)", fn.Name(), strings.Join(callArgs, ", "))
+	}
+	if t.Ret == "out" {
+		fmt.Fprintf(&sb, "\t\tr := %s\n", call)
+		post = append(post, "\t\tout = append(out, verifRead(&r)...)\n")
+	} else if fn.Signature.Results().Len() > 0 {
+		blanks := make([]string, fn.Signature.Results().Len())
+		for i := range blanks {
+			blanks[i] = "_"
+		}
+		fmt.Fprintf(&sb, "\t\t%s = %s\n", strings.Join(blanks, ", "), call)
+	} else {
+		fmt.Fprintf(&sb, "\t\t%s\n", call)
+	}
+	for _, l := range post {
+		sb.WriteString(l)
+	}
+	sb.WriteString("\t\treturn out\n\t}\n")
+	return sb.String()
+}
+
 func runInit(prog *ssa.Program, pkg *ssa.Package, globals map[*ssa.Global]*Cell, module string) (err string) {
 	defer func() {
 		if e := recover(); e != nil {
@@ -1218,6 +1292,7 @@ func main() {
 		leanDir = flag.String("lean", "", "output directory for Voi/Gen/*.lean")
 		txt     = flag.String("txt", "", "output text file (programs for the driver)")
 		module  = flag.String("module", "github.com/oasisprotocol/curve25519-voi", "module path")
+		gowrap  = flag.String("gowrap", "", "output directory for generated Go wrappers (export/<pkg>/verif_t0_<group>.go) used by stream T0")
 	)
 	flag.Parse()
 	var ts []Target
@@ -1333,7 +1408,7 @@ func main() {
 					fmt.Fprintf(&sb, "  %s%s\n", opLean(o), sep)
 				}
 				fmt.Fprintf(&sb, "]\n")
-				fmt.Fprintf(&txtb, "prog %s.%s %d %s", g, r.T.Name, r.Nin, strings.Trim(strings.ReplaceAll(intList(r.Outs), " ", ""), "[]"))
+				fmt.Fprintf(&txtb, "prog %s.%s %d %s %s", g, r.T.Name, r.Nin, strings.Trim(strings.ReplaceAll(intList(r.InBits), " ", ""), "[]"), strings.Trim(strings.ReplaceAll(intList(r.Outs), " ", ""), "[]"))
 				for _, o := range r.Ops {
 					fmt.Fprintf(&txtb, " ; %s", opTxt(o))
 				}
@@ -1344,6 +1419,30 @@ func main() {
 				if err := os.WriteFile(filepath.Join(*leanDir, "IR_"+g+"_"+r.T.Name+".lean"), []byte(sb.String()), 0o644); err != nil {
 					panic(err)
 				}
+			}
+		}
+	}
+	if *gowrap != "" {
+		os.RemoveAll(*gowrap)
+		for _, g := range gnames {
+			rs := groups[g]
+			var sb strings.Builder
+			cons := "verif && !force32bit"
+			if strings.Contains(rs[0].T.Tags, "force32bit") {
+				cons = "verif && force32bit"
+			}
+			pkgName := filepath.Base(rs[0].T.Pkg)
+			fmt.Fprintf(&sb, "// Code generated by go2ir; DO NOT EDIT.\n\n//go:build %s\n\npackage %s\n\nfunc init() {\n", cons, pkgName)
+			for _, r := range rs {
+				if r.Err == "" {
+					sb.WriteString(r.Wrap)
+				}
+			}
+			sb.WriteString("}\n")
+			dir := filepath.Join(*gowrap, rs[0].T.Pkg)
+			os.MkdirAll(dir, 0o755)
+			if err := os.WriteFile(filepath.Join(dir, "verif_t0_"+strings.ToLower(g)+".go"), []byte(sb.String()), 0o644); err != nil {
+				panic(err)
 			}
 		}
 	}
